@@ -227,7 +227,7 @@ int validate_chunk(zckChunk *idx, zck_log_type bad_checksum) {"""),
      'expect': 'comp_end_dchunk'},
     {'id': 'm15c', 'desc': 'chunk end no longer conditioned on whole chunk', 'file': 'src/lib/comp/comp.c',
      'old': 'if(zck->comp.data_loc == zck->comp.data_idx->comp_length) {',
-     'new': 'if(zck->comp.data_loc <= zck->comp.data_idx->comp_length && finished_rd) {',
+     'new': 'if(zck->comp.data_loc <= zck->comp.data_idx->comp_length && zck->comp.data_size > 0) {',
      'expect': 'R2.guard comp_read'},
     {'id': 'm15d', 'desc': 'zstd streaming slot releases data early', 'file': 'src/lib/comp/zstd/zstd.c',
      'old': """static bool decompress(zckCtx *zck, zckComp *comp, const bool use_dict) {
